@@ -1,0 +1,50 @@
+//go:build verif
+// +build verif
+
+// Verification hooks (build tag verif only) for the VRF qualification rule:
+// thin exports of the unexported functions in vrf_with_stake.go / vrf_worker.go.
+// No behaviour is added or changed.
+
+package logical
+
+import (
+	"math/big"
+	"time"
+
+	"com.tuntun.rangers/node/src/consensus/model"
+	"com.tuntun.rangers/node/src/consensus/vrf"
+	"com.tuntun.rangers/node/src/middleware/types"
+)
+
+// VerifVrfValidateProve is validateProve.
+func VerifVrfValidateProve(prove vrf.VRFProve, height, workingMiners, totalStake uint64) (ok bool, qn uint64) {
+	return validateProve(prove, height, workingMiners, totalStake)
+}
+
+// VerifVrfCalQn is calQn (note: calQn clamps stakeRatio in place, exactly as in production).
+func VerifVrfCalQn(vrfValueRatio, stakeRatio *big.Rat) uint64 { return calQn(vrfValueRatio, stakeRatio) }
+
+// VerifVrfValueRatio is calcVrfValueRatio.
+func VerifVrfValueRatio(prove vrf.VRFProve) *big.Rat { return calcVrfValueRatio(prove) }
+
+// VerifVrfStakeRatio is calcStakeRatio.
+func VerifVrfStakeRatio(difficulty, totalStake uint64) *big.Rat {
+	return calcStakeRatio(difficulty, totalStake)
+}
+
+// VerifVrfGenMsg is genVrfMsg.
+func VerifVrfGenMsg(random []byte, delta int) []byte { return genVrfMsg(random, delta) }
+
+// VerifVrfZeroPadding is this package's tryZeroPadding.
+func VerifVrfZeroPadding(pi vrf.VRFProve) vrf.VRFProve { return tryZeroPadding(pi) }
+
+// VerifVrfVerifyBlock is verifyBlockVRF (the verifier side of a proposed header).
+func VerifVrfVerifyBlock(bh *types.BlockHeader, preBH *types.BlockHeader, castor *model.MinerInfo, totalStake uint64) (bool, error) {
+	return verifyBlockVRF(bh, preBH, castor, totalStake)
+}
+
+// VerifVrfGenProve builds a vrfWorker as the proposer does and calls genProve.
+func VerifVrfGenProve(miner *model.SelfMinerInfo, baseBH *types.BlockHeader, castHeight uint64, castTime time.Time, totalStake uint64) (vrf.VRFProve, uint64, error) {
+	w := newVRFWorker(miner, baseBH, castHeight, castTime.Add(time.Hour))
+	return w.genProve(castTime, totalStake)
+}
